@@ -415,6 +415,22 @@ def variant_bytes(fam, x: bytes, addpath: bool, variant: dict) -> tuple[str, byt
         y[off + 2 + pos % 6] ^= xor
         return 'rd', bytes(y)
     if kind == 'prefix':
+        if fam[1] == 85 and len(x) > 13 and x[0] == 1 and x[1:3] in (b'\x00\x01', b'\x00\x03'):
+            # MUP interwork segment discovery / type 1 session transformed: architecture, type, length, RD, then a prefix
+            # length in bits and the prefix octets. Another length that needs the same number of octets is another prefix
+            bits = x[12]
+            if bits == 0:
+                return None
+            low = ((bits - 1) // 8) * 8 + 1
+            y[12] = low + ((bits - low) + 1 + pos % 7) % 8
+            if y[12] > (32 if fam[0] == 1 else 128):
+                return None
+            return 'prefix', bytes(y)
+        if fam == (25, 70) and len(x) in (36, 60) and x[0] == 5:
+            # EVPN IP prefix route: type, length, RD, ESI, Ethernet tag, then the prefix length in bits and a full-size address
+            top = 32 if len(x) == 36 else 128
+            y[24] = (x[24] + 1 + pos % 7) % (top + 1)
+            return 'prefix', bytes(y)
         if fam not in gen.IP_FAMILIES:
             return None
         lay = ip_layout(fam, x, addpath)
@@ -1349,7 +1365,14 @@ def history_cases(draw):
     size = max(1, len(base['hex']) // 2)
     others = []
     for _ in range(draw(st.integers(1, 3))):
-        how = draw(st.sampled_from(['bit', 'bit', 'bit', 'width', 'flags']))
+        how = draw(st.sampled_from(['bit', 'bit', 'bit', 'width', 'flags', 'family']))
+        if how == 'family' and base['kind'] == 'nlri':
+            # the same bytes read as the sibling family (IPv4 / IPv6 flavours of one decoder class share type codes, not meanings)
+            siblings = SAME_CLASS.get((base['afi'], base['safi']), [])
+            if siblings:
+                g = draw(st.sampled_from(siblings))
+                others.append(dict(base, afi=g[0], safi=g[1], addpath=base['addpath'] and g in gen.ADDPATH_FAMILIES))
+            continue
         if how == 'width' and base['kind'] == 'attr':
             others.append(dict(base, asn4=not base['asn4']))
             continue
@@ -1380,6 +1403,22 @@ def history_fixed_cases() -> list:
             continue
         for seed in corpus.ATTR_SEEDS[code][: 8 if code in CACHED_CODES else 2]:
             add({'kind': 'attr', 'code': code, 'flags': seed['flags'], 'hex': seed['hex'], 'asn4': seed['asn4']}, 'seed-history')
+    # one NLRI of every family that shares its decoder class with another family, read as each of them in turn
+    for fam in FAMILIES:
+        for seed in [e for e in SINGLES.get(fam, []) if not e['addpath']][:3]:
+            for g in SAME_CLASS.get(fam, []):
+                a = {'kind': 'nlri', 'afi': fam[0], 'safi': fam[1], 'hex': seed['hex'], 'addpath': False, 'action': seed['action']}
+                b = dict(a, afi=g[0], safi=g[1])
+                cases.append({'kind': 'history', 'sequences': [[a, b, a], [b, a, b]], 'source': 'family-history'})
+    # FlowSpec component types mean different things per family (3: protocol / next-header, 11: dscp / traffic-class)
+    for raw in ('03038106', '030b812e', '0603810607812e', '05038106' + '0b812e'):
+        for fams in (((1, 133), (2, 133)), ((1, 134), (2, 134))):
+            hexes = raw if fams[0][1] == 133 else None
+            if hexes is None:
+                continue
+            a = {'kind': 'nlri', 'afi': fams[0][0], 'safi': fams[0][1], 'hex': hexes, 'addpath': False, 'action': 'announce'}
+            b = dict(a, afi=fams[1][0], safi=fams[1][1])
+            cases.append({'kind': 'history', 'sequences': [[a, b, a], [b, a, b]], 'source': 'family-history'})
     for raw in ('0002fde800000064', '0102c0a8000100c8', '0202000fde800064', '030c000000000000', '800600007fc00000'):
         base = {'kind': 'attr', 'code': 16, 'flags': 0xC0, 'hex': raw, 'asn4': True}
         add(base, 'pinned-history')
